@@ -226,7 +226,8 @@ def damage_doc(case):
     objs[4] = W.Stream({b"Length": len(content)}, content)
     objs[5] = W.simple_font()
     revs = [{"defs": objs, "root": 1, "info": None, "form": "table", "eol": case.get("eol", b"\n"),
-             "entry_eol": case.get("entry_eol", b" \n"), "split": case.get("split", False)}]
+             "entry_eol": case.get("entry_eol", b" \n"), "split": case.get("split", False),
+             "stream_eol": case.get("stream_eol", b"\n"), "stream_end_eol": case.get("stream_end_eol", b"\n")}]
     data, meta = X.write_history(revs)
     return data, meta, objs
 
@@ -313,7 +314,10 @@ def damage_cases(draw):
         dmg["value"] = draw(st.sampled_from([b"0000000000 00000", b"000000000a 00000 n", b"0000000010 0000x n", b"garbage",
                                              b"0000000000 00000 n extra", b""]))
     return {"kind": "damage", "objs": objs, "text": text, "damage": dmg,
-            "eol": draw(st.sampled_from([b"\n", b"\r\n"])), "bufsiz": draw(st.sampled_from(BUFS))}
+            "eol": draw(st.sampled_from([b"\n", b"\r\n"])), "bufsiz": draw(st.sampled_from(BUFS)),
+            # /Length delimits the data: an EOL before `endstream` is optional
+            "stream_eol": draw(st.sampled_from([b"\n", b"\r\n"])),
+            "stream_end_eol": draw(st.sampled_from([b"\n", b"\r\n", b"\r", b""]))}
 
 
 def run_damage(case):
